@@ -92,9 +92,19 @@ def extract(repo):
     gdk = _strip_comments(_body(sr, r"sectionReader::getDelimitedKeyword\s*\([^)]*\)\s*\{"))
     if "strchr( delimiters, c )" not in gdk and "strchr(delimiters, c)" not in gdk:
         raise ValueError("getDelimitedKeyword: delimiter test not found")
+    # the keyword is accumulated in an unbounded std::string (a fixed buffer would silently cut long entity names)
+    if re.search(r"static\s+std::string\s+str\s*;", gdk) and re.search(r"str\.append\(\s*1\s*,\s*c\s*\)", gdk) and \
+            not re.search(r"str\.(length|size)\(\)\s*<", gdk):
+        kw_unbounded = True
+    elif re.search(r"char\s+str\s*\[", gdk):
+        kw_unbounded = False
+    else:
+        raise ValueError("getDelimitedKeyword: how the keyword is accumulated not recognised")
     kw_space = bool(re.search(r"strchr\(\s*delimiters,\s*c\s*\)\s*&&\s*!isspace\(\s*c\s*\)", gdk))
     ctor = _strip_comments(_body(p21, r"lazyP21DataSectionReader::lazyP21DataSectionReader\s*\([^{]*\{"))
     rn0 = _strip_comments(_body(sr, r"sectionReader::readInstanceNumber\s*\(\s*\)\s*\{"))
+    # zero padding of an instance name does not count towards the digit limit
+    id_zero_pad = bool(re.search(r"digits\s*==\s*1\s*&&\s*buffer\[\s*0\s*\]\s*==\s*'0'", rn0))
     places = [bool(re.search(r"--parenDepth == 0 \) \{\s*skipWSandComments\(\)", se)),
               bool(re.search(r"buffer\[ digits \] = '\\0';\s*skipWSandComments\(\)", rn0)),
               bool(re.search(r"skipWSandComments\(\);\s*std::streampos pos", ctor))]
@@ -218,6 +228,10 @@ def extract(repo):
            "def seekCases : List Char := [" + ", ".join(_lean_char(c) for c in cases) + "]",
            f"def instanceIdMax : Nat := {idmax}",
            f"/-- `numeric_limits<instanceID>::digits10 + 1` -/\ndef instanceIdDigits : Nat := {digits10 + 1}",
+           "/-- `getDelimitedKeyword` accumulates the keyword in an unbounded string: keywords of any length are read whole -/",
+           f"def kwUnbounded : Bool := {'true' if kw_unbounded else 'false'}",
+           "/-- `readInstanceNumber`: leading zeros of an instance name do not count towards the digit limit -/",
+           f"def idZeroPad : Bool := {'true' if id_zero_pad else 'false'}",
            "/-- `getDelimitedKeyword`: any white space ends a keyword (else `abort()`) -/",
            f"def kwSpaceDelim : Bool := {'true' if kw_space else 'false'}",
            "/-- comments are skipped between `)` and `;`, between the id and `=`, before `ENDSEC` -/",
